@@ -648,3 +648,35 @@ _run_c12b = run
 def run(ctx, R):
     _run_c12b(ctx, R)
     r129(ctx, R)
+
+
+def r1210(ctx, R):
+    """ensure_consumer never refuses the request after it has created the
+    consumer: no raise of its own is reachable, on a normal path, from the
+    call that creates (and commits) the record - the callers' clean-up runs
+    only around what follows ensure_consumer's return."""
+    f = ctx.prog.func(ENSURE)
+    CREATE = 'placement.handlers.util:_create_consumer'
+    g = cfgmod.cfg_of(f)
+    creates = [C.stmt_of(s.node) for s in ctx.cg.calls_in(f)
+               if any(c.qbase == CREATE for c in s.callees)]
+    raises = [n for n in own_nodes(f.node) if isinstance(n, ast.Raise)]
+    bad = []
+    for cst in creates:
+        reach = g.reachable_from(list(g.succ.get(cst, ())), normal_only=True)
+        bad.extend(r for r in raises if r in reach)
+    R.ob('R12.10', 'ensure_consumer:no-refusal-after-create',
+         len(creates) >= 1 and not bad,
+         'every test that can refuse the request comes before the consumer '
+         'is created', ['line %d: %s' % (r.lineno, src(r)[:50])
+                        for r in bad] or '%d create call(s), %d raises '
+         'before' % (len(creates), len(raises)), func=f)
+    R.count('R12.10', len(creates), 1)
+
+
+_run_c12c = run
+
+
+def run(ctx, R):
+    _run_c12c(ctx, R)
+    r1210(ctx, R)
